@@ -111,6 +111,7 @@ def strategy_impl(draw, tier):
         "route": draw(st.sampled_from(["decorator-string", "decorator-hints", "apply"])),
         "grid": draw(gen.grid_settings(names, exotic=False)),
         "misplace": draw(st.booleans()),
+        "lazy": draw(st.sampled_from(["no", "def", "call", "both"])),
     }
 
 
@@ -303,6 +304,39 @@ def check(case, ctx):
             raise Violation("output values/shape differ from what the user function returned (plus padding after the function)", output=k,
                             got_shape=list(ov.shape), expected_shape=list(a.shape), pad_before_func=pad_before)
 
+    # ---- `dask` bound at definition time acts as if passed at call time; the call-time value wins
+    lazy = case.get("lazy", "no")
+    if lazy != "no" and route != "apply" and pad_before:
+        import dask
+
+        lazy_das = [d.chunk() for d in das]
+        d2, c2 = dict(def_kw), dict(call_kw)
+        d2["pad_before_func"] = True
+        c2.pop("pad_before_func", None)
+        if lazy in ("def", "both"):
+            d2["dask"] = "parallelized" if lazy == "def" else "forbidden"
+        if lazy in ("call", "both"):
+            c2["dask"] = "parallelized"
+        guf2 = must_return("as_grid_ufunc(dask=...)", lambda: as_grid_ufunc(boundary_width=bw_arg, **sig_kw, **d2)(fn))
+        del record[:]
+        got2 = must_return(f"GridUFunc call on dask-backed input (dask supplied at: {lazy})", guf2, grid, *lazy_das, axis=axis_arg, **c2)
+        outs2 = tuple(got2) if isinstance(got2, (tuple, list)) else (got2,)
+        for k, (o2, o1) in enumerate(zip(outs2, outs)):
+            if not dask.is_dask_collection(o2.data):
+                raise Violation("result of a dask-backed input is not lazy although dask='parallelized' is in force", supplied_at=lazy)
+            if list(o2.dims) != list(o1.dims) or not np.array_equal(np.asarray(o2.compute().values), np.asarray(o1.values)):
+                raise Violation("dask='parallelized' bound at definition/call time gives another result than the in-memory call", output=k, supplied_at=lazy)
+        # the reverse binding: parallelized at definition, forbidden at call time -> the call-time value must win (refusal)
+        d3 = dict(d2, dask="parallelized")
+        c3 = dict(c2, dask="forbidden")
+        guf3 = as_grid_ufunc(boundary_width=bw_arg, **sig_kw, **d3)(fn)
+        try:
+            guf3(grid, *lazy_das, axis=axis_arg, **c3)
+        except Exception:  # noqa: BLE001
+            pass
+        else:
+            raise Violation("call-time dask='forbidden' did not override definition-time dask='parallelized' (dask-backed input was accepted)")
+
     # ---- an input that is not on the position the signature names is rejected
     if case["misplace"]:
         d, p = case["sig_in"][0][0]
@@ -325,6 +359,6 @@ def check(case, ctx):
     some_width = bool(bw) and any(w[0] or w[1] for w in bw.values())
     def_nondefault = route != "apply" and (case["boundary"]["where"] in ("def", "both") or case["fill_value"]["where"] in ("def", "both")
                                            or (bw_where == "def" and some_width))
-    classes = [f"route:{route}", f"nin:{len(das)}", f"nout:{case['n_out']}", f"pad_before:{pad_before}", f"bw:{bw_where if bw else 'none'}",
+    classes = [f"route:{route}", f"lazy:{lazy if (route != 'apply' and pad_before) else 'no'}", f"nin:{len(das)}", f"nout:{case['n_out']}", f"pad_before:{pad_before}", f"bw:{bw_where if bw else 'none'}",
                f"boundary:{case['boundary']['where']}", f"fill:{case['fill_value']['where']}", f"ndummy:{len(bind)}"]
     return {"nontrivial": bool(some_width and def_nondefault), "classes": classes}
